@@ -171,6 +171,19 @@ def main():
         print("check: lean stage timed out")
         return 2
     escalate = not lean["ok"]
+    # source fingerprints: the anchored files differ from the text the model was last validated against -> explore with
+    # the thorough budget (never a violation by itself)
+    changed_files = []
+    try:
+        sys.path.insert(0, os.path.join(VERIF, "tools"))
+        import pin_fingerprints as _pf
+        pinned = json.load(open(os.path.join(VERIF, "fingerprints.json"))).get(pid, {})
+        cur = _pf.fingerprints(os.environ.get("VERIF_REPO", "/repo"), pid).get(pid, {})
+        changed_files = sorted(f for f in set(pinned) | set(cur) if pinned.get(f) != cur.get(f))
+    except Exception as e:  # noqa: BLE001
+        changed_files = ["<fingerprints unavailable: %s>" % type(e).__name__]
+    if changed_files and os.environ.get("VERIF_NO_FINGERPRINT_ESCALATION") != "1":
+        escalate = True
     try:
         res = mod.run(tier=tier, seed=seed, escalate=escalate)
     except subprocess.TimeoutExpired:
@@ -244,6 +257,7 @@ def main():
         "unproved_clauses": res.get("unproved_clauses", []),
         "distribution": res.get("distribution", {}),
         "escalated": escalate,
+        "source_fingerprint_changed": changed_files,
     }
     ev = {"property_id": pid, "tier": tier, "seed": seed, "level": "proof", "coverage": cov,
           "assumptions": res.get("assumptions", []), "wall_s": round(time.time() - t0, 2),
